@@ -10,6 +10,9 @@ CHECKS = {
  "C13": ("exploration", "differential runtime monitor: reference range parser vs real GET/HEAD responses and direct calls of ParseGetObjectRange",
    "Every generated Range header (fixed hostile list x object sizes plus PRNG-generated and mutated headers) is sent to a real gateway and fed to the exported parser; status, Content-Range, Content-Length and body are compared with an independent reference parser and the object bytes. Held on the executions produced; says nothing about headers not generated.",
    "Trusts the harness reference parser (written from the property statement), HTTP/1.1 parsing of net/http, tmpfs semantics. Arguable forms (suffix -n, signed numbers, >64-bit numbers) are accepted either way.", "3/C13"),
+ "C05": ("exploration", "deterministic hook-point scheduler (one request held at each filesystem step while another runs to completion, same/other gateway process) + atomicity monitor on every read + porcupine linearizability check of client-boundary histories; stress histories with injected delays; race detector lane",
+   "Every (paused operation, hook point it passes, observer operation, process placement, temp-file strategy) schedule is executed against real gateway processes sharing one storage; unique write ids make every read identify its write four ways (body hash, length, ETag, metadata). Exhaustive over the instrumented steps for two-request schedules; three-way interleavings and preemption between hook points only by stress.",
+   "Trusts the placement of the hook points (between filesystem steps), porcupine v1.3.0, the register model (with the delete-by-version rule), tmpfs. Recorded known findings: GET/HEAD read size, attributes and data by path in separate steps (torn reads); delete-by-version racing a writer.", "3/C05"),
 }
 PENDING_REASON = "check not yet built in this session (under construction; see DESIGN.md section 3)"
 props=[json.loads(l)["id"] for l in open(os.path.join(V,"properties.jsonl"))]
